@@ -4,15 +4,17 @@ against a scratch worktree carrying the patch, and store everything under /verif
 meta.json). Test-suite confirmations are taken from the logs of tools/seedeval.sh / seedtests.sh (argument 2)."""
 import json, os, re, shutil, subprocess, sys, tempfile
 
-OUT = '/tmp/seedwork/out'
+OUT = os.environ.get('SEED_OUT', '/tmp/seedwork/out')
+OFFSET = int(os.environ.get('SEED_OFFSET', '0'))
+BASES = json.loads(os.environ.get('SEED_BASES', '{}'))
 MISSED_FIRST = json.loads(sys.argv[2]) if len(sys.argv) > 2 else {}
 tests = {}
-for log in ('/tmp/seedtests.log', '/tmp/seedeval1.log'):
+for log in os.environ.get('SEED_TESTLOGS', '/tmp/seedtests.log,/tmp/seedeval1.log').split(','):
     if not os.path.exists(log):
         continue
     cur = None
     for line in open(log):
-        m = re.match(r'^(C\d\d/\d):.*?(\d+ failed, \d+ passed)', line)
+        m = re.match(r'^(C\d\d/\d).*?:.*?(\d+ failed, \d+ passed)', line)
         if m:
             tests[m.group(1)] = m.group(2)
         m = re.match(r'^== /tmp/seedwork/out/(C\d\d/\d)', line)
@@ -34,14 +36,19 @@ for prop in sorted(os.listdir(OUT)):
         meta = json.load(open(os.path.join(src, 'meta.json')))
         wt = tempfile.mkdtemp(prefix='ss-')
         os.rmdir(wt)
-        subprocess.run(['git', '-C', '/repo', 'worktree', 'add', '-q', '--detach', wt, 'HEAD'], check=True)
+        base = BASES.get(sid, 'HEAD')
+        subprocess.run(['git', '-C', '/repo', 'worktree', 'add', '-q', '--detach', wt, base], check=True)
+        orig = '/repo'
+        if base != 'HEAD':
+            orig = tempfile.mkdtemp(prefix='sso-'); os.rmdir(orig)
+            subprocess.run(['git', '-C', '/repo', 'worktree', 'add', '-q', '--detach', orig, base], check=True)
         try:
             ap = subprocess.run(['git', '-C', wt, 'apply', os.path.join(src, 'patch.diff')])
             if ap.returncode != 0:
                 print(sid, 'patch does not apply on HEAD')
                 continue
             res = {}
-            for label, tree in (('original', '/repo'), ('patched', wt)):
+            for label, tree in (('original', orig), ('patched', wt)):
                 d = tempfile.mkdtemp(prefix='ssd-')
                 r = subprocess.run(['/venv/bin/python', os.path.join(src, 'demo.py')], cwd=d, capture_output=True, text=True,
                                    env=dict(os.environ, PYTHONPATH=tree), timeout=180)
@@ -52,12 +59,13 @@ for prop in sorted(os.listdir(OUT)):
             chk = subprocess.run(['/venv/bin/python', '/verif/vcheck', prop, '--tier', 'quick'], capture_output=True, text=True,
                                  env=dict(os.environ, VERIF_REPO=wt))
             first = next((l.strip() for l in chk.stdout.splitlines() if l.strip().startswith('kind=')), '')
-            dst = '/verif/seeded/%s-%s' % (prop, n)
+            dst = '/verif/seeded/%s-%d' % (prop, int(n) + OFFSET)
             os.makedirs(dst, exist_ok=True)
             shutil.copy(os.path.join(src, 'patch.diff'), dst)
             shutil.copy(os.path.join(src, 'demo.py'), dst)
             meta.update({
                 'breaks_property': prop,
+                'patch_base': (base if base != 'HEAD' else subprocess.run(['git', '-C', '/repo', 'rev-parse', '--short', 'HEAD'], capture_output=True, text=True).stdout.strip()),
                 'confirmed_by_me': {
                     'test_suite_with_patch': tests.get(sid, 'not re-run'),
                     'demo_exit_on_original_tree': res['original'], 'demo_exit_on_patched_tree': res['patched'],
@@ -74,5 +82,7 @@ for prop in sorted(os.listdir(OUT)):
             print(rows[-1])
         finally:
             subprocess.run(['git', '-C', '/repo', 'worktree', 'remove', '--force', wt])
+            if orig != '/repo':
+                subprocess.run(['git', '-C', '/repo', 'worktree', 'remove', '--force', orig]); shutil.rmtree(orig, ignore_errors=True)
             shutil.rmtree(wt, ignore_errors=True)
 subprocess.run(['git', '-C', '/verif', 'checkout', '--', 'evidence'])
